@@ -317,6 +317,7 @@ func C05(c *ev.Ctx) {
 			}
 		}
 	}
+	c05Keywords(c)
 	c05Stale(c, pkgs[0])
 	richChecked := c05Rich(c, flagSets)
 	c.Set("rich_packages_checked", richChecked)
@@ -598,4 +599,45 @@ func c05Duplicate(pf *vparse.File) string {
 		seen[d.Name] = true
 	}
 	return ""
+}
+
+// c05Keywords: Go declarations named like Coq reserved words (legal Go identifiers). Whatever name the translator
+// documents for them, "Definition end: val := ..." is not a sentence Coq accepts.
+func c05Keywords(c *ev.Ctx) {
+	kws := []string{"end", "match", "fix", "fun", "let", "with", "in", "as", "forall", "then"}
+	m, err := newGenModule(c, "mod-c05kw")
+	if err != nil {
+		c.Inconclusive("module: %v", err)
+		return
+	}
+	defer os.RemoveAll(m.dir)
+	for i, kw := range kws {
+		src := fmt.Sprintf("package gen\n\nfunc %s() uint64 {\n\treturn 1\n}\n\nfunc Use%d() uint64 {\n\treturn %s() + 1\n}\n", kw, i, kw)
+		d := filepath.Join(m.dir, fmt.Sprintf("kw%d", i))
+		_ = os.MkdirAll(d, 0755)
+		_ = os.WriteFile(filepath.Join(d, "gen.go"), []byte(src), 0644)
+		m.pkgs = append(m.pkgs, fmt.Sprintf("kw%d", i))
+	}
+	gout := m.runGoose(c)
+	if gout.exit == 2 || strings.Contains(gout.stderr, "goroutine ") {
+		return // a crash is judged by C07
+	}
+	var bad []string
+	sample := ""
+	for i, kw := range kws {
+		text, ok := gout.files[fmt.Sprintf("kw%d", i)]
+		if !ok {
+			continue // rejected with an error: a fine answer
+		}
+		if _, perr := vparse.ParseFile(text); perr != nil || regexp.MustCompile(`(?m)^Definition `+kw+`\b`).MatchString(text) {
+			bad = append(bad, kw)
+			if sample == "" {
+				sample = text
+			}
+		}
+	}
+	c.Set("coq_keyword_names_tried", len(kws))
+	if len(bad) > 0 {
+		c.Report("c05.coq-keyword-name", fmt.Sprintf("Go functions named %v (legal Go identifiers, reserved words of Coq) are translated without any error into sentences like 'Definition %s: val := rec: ...' and calls like '%s #()', which Coq cannot parse: the emitted file is not well-formed", bad, bad[0], bad[0]), map[string]string{"emitted.v": sample})
+	}
 }
